@@ -792,6 +792,9 @@ func main() {
 		"fixed key files: OpenSSH/bcrypt (ssh-keygen -a 2) Ed25519 and RSA, legacy PEM (AES-128-CBC) RSA; RSA moduli of 2048, 2500 and 2052 bits; one right passphrase; wrong = another string, passphrase plus a space, empty, nil",
 		"every step is age.Decrypt with the identity as the only identity, on a well-formed file built by refage; a stanza of the identity's type without arguments is outside the alphabet (C14)",
 		"histories are sequential (C20 covers sharing); the identity value is never copied",
+		"ownership: the slice a passphrase callback returns stays the caller's, the library only reads it; retained.go runs scenarios with one retained slice shared by one or several identity values against the same scenario with fresh-copy callbacks, and checks the slice afterwards (everywhere else the callbacks return fresh copies)",
+		"malformed stanzas of the identity's own type without its tag (malformed.go), after / before / around / between / without the own stanza: differential with the tree's plain identity of the same key on the same list (same outcome class when the own stanza is present; exactly one prompt when the plain identity opens, at most one when it fails hard; no prompt and no-match-or-the-same-hard-error without an own stanza)",
+		"long headers (longhdr.go): 2..300 stanzas with the own stanza at index 0, n/2, n-2, n-1, 31, 32, 63, 64, 65, 127, 128, 255, 256; Unwrap level on one fresh identity per case (without / with / with / without the own stanza) and one age.Decrypt per length >= 65; Ed25519, RSA OpenSSH, RSA PEM",
 		"passphrase alphabet (longpass.go): key files built with ssh.MarshalPrivateKeyWithPassphrase under passphrases of 31, 32, 33, 63, 64, 65 and 200 bytes (quick: Ed25519 at 31, 32, 33, 64, 200 and RSA at 32, 64; thorough: all) and wrong answers that share the first 16/31/32/33/63/64 bytes with the right one, differ in the last byte or its case, have a byte or a NUL appended or the last byte dropped",
 		"matching-but-unopenable stanzas (right type and tag; body with one bit flipped / one byte short, an extra argument, another key's body under this key's tag): the identity asks, the call with the right passphrase remembers the validated key although the file fails with a hard error, later valid files decrypt without a prompt (Ed25519, RSA OpenSSH 2048/2500 bit, RSA legacy PEM)",
 		"foreign stanzas of odd shapes (no arguments with empty / non-empty body, one short argument, twenty arguments) alone, before, after and between genuine stanzas: not addressed to the key, no prompt, no hard error; the unknown stanza of the multi-identity headers takes these shapes too",
@@ -1158,6 +1161,9 @@ func main() {
 		edA, edB := keys.DecryptedEd("enc_ed1"), keys.DecryptedEd("enc_ed2")
 		splitKeyStage(r, fs, encEd1, encEd2, e1, edA.Seed, edB.Seed)
 		longPassphraseStage(r, fs, edCons, rsaConsO)
+		longHeaderStage(r, fs, tagConfs, x1)
+		malformedStage(r, fs, tagConfs)
+		retainedSliceStage(r, fs, edCons, edIncons, edCons2, rsaConsO, rsaConsP)
 		fs.report(r)
 		if os.Getenv("C19_STAGE") == "" {
 			nearTagVacuity(r, []string{"ed25519", "rsa-openssh", "rsa-pem"})
